@@ -54,6 +54,8 @@ class Check(CheckBase):
             cases.append({'kind': 'xproc', 'seed': r.randrange(1 << 30),
                           'settings': gen.gen_settings(r, encrypted=i % 3 != 2, chunker=r.choice([(8, 64), (16, 257), (5, 10)])),
                           'concurrent': r.choice([1, 3, 8])})
+        for i in range(4 if quick else 60):
+            cases.insert(i, {'kind': 'cli', 'seed': random.Random(f'C07/{self.seed}/cli/{i}').randrange(1 << 30), 'timeout': 900})
         return cases
 
     def worker_setup(self):
@@ -78,6 +80,9 @@ class Check(CheckBase):
     def run_case(self, case):
         if case['kind'] == 'xproc':
             return self._xproc(case)
+        if case['kind'] == 'cli':
+            from .. import cliflow
+            return cliflow.run_case(case['seed'], 'storage')
         from .. import hist
         r = random.Random(case['seed'])
         enc = case['settings'].get('encryption') is not None
